@@ -54,6 +54,8 @@ def work(ctx, tier):
         for e in common.pick_entries(rng, rig.BREAKER_ENTRIES, 2):
             _one(ctx, sc, e, stats)
         ctx.inc("breaker_history_scenarios")
+    if tier != "quick":
+        common.repo_suite_under_monitors(ctx, "events")
     common.flush_stats(ctx, stats)
 
 
